@@ -116,3 +116,14 @@ Fixpoint sites (s : stmt) : list nat :=
   | STry b h f => sites b ++ sites h ++ sites f
   | _ => []
   end.
+
+(* the translated methods a statement calls (for reporting) *)
+Fixpoint calls (s : stmt) : list nat :=
+  match s with
+  | SCall f => [f]
+  | SSeq a b => calls a ++ calls b
+  | SIf _ t e => calls t ++ calls e
+  | SLoop b el => calls b ++ calls el
+  | STry b h f => calls b ++ calls h ++ calls f
+  | _ => []
+  end.
